@@ -192,4 +192,18 @@ pub mod strs {
     #[verifier::external_body] pub fn u64_from_str(s: Str) -> (r: Result<u64, ParseIntError>) ensures r.is_ok() == sp_u64(s).is_some(), r matches Ok(v) ==> v == sp_u64(s).unwrap() { unimplemented!() }
     #[verifier::external_body] pub fn u16_from_str(s: Str) -> (r: Result<u16, ParseIntError>) ensures r.is_ok() == sp_u16(s).is_some(), r matches Ok(v) ==> v == sp_u16(s).unwrap() { unimplemented!() }
     pub assume_specification [u8::is_ascii_digit] (c: &u8) -> (r: bool) ensures r == is_digit(*c);
+    /// `s.iter().all(u8::is_ascii_digit)` (rule R46): verified definitional implementation.
+    pub fn slice_all_ascii_digits(s: &[u8]) -> (r: bool)
+        ensures r == (forall|i: int| 0 <= i < s@.len() ==> is_digit(#[trigger] s@[i])),
+    {
+        let mut i: usize = 0;
+        while i < s.len()
+            invariant i <= s.len(), forall|j: int| 0 <= j < i ==> is_digit(#[trigger] s@[j]),
+            decreases s.len() - i,
+        {
+            if !s[i].is_ascii_digit() { return false; }
+            i += 1;
+        }
+        true
+    }
 }
